@@ -29,7 +29,7 @@ for src, dst in [("cmd/seeddemo/main.go", "demo_main.go"), ("SEED_REPORT.md", "S
     if os.path.exists(os.path.join(wt, src)):
         shutil.copyfile(os.path.join(wt, src), os.path.join(out, dst))
 meta = dict(id=sid, properties_targeted=props, ran=[], patch_lines=len([l for l in patch.split("\n") if l.startswith(("+", "-")) and not l.startswith(("+++", "---"))]))
-rc, o = run("go build ./pkg/... ./cmd/...")
+rc, o = run("go build ./pkg/... ./cmd/seeddemo/")
 meta["build_with_change"] = rc == 0
 rc, o = run("go test -vet=off -count=1 ./pkg/blockdevice/... ./pkg/eviction/... ./pkg/filesystem/... ./pkg/random/... ./pkg/zstd/... 2>&1 | grep -E '^(--- FAIL|FAIL|ok)'")
 fails = [l for l in o.split("\n") if l.startswith("--- FAIL") and "TestLocalDirectoryIsWritable" not in l]
